@@ -58,7 +58,8 @@ class C12(Prop):
     table_groups = ['ChainAddr']
     theorems = ['BtcVerif.C12.' + t for t in (
         'select_step', 'select_inv', 'selected_mem', 'roundtrip', 'roundtrip_after_history', 'refuse_total',
-        'unsupported_witver_refused', 'cross_chain_refused_base58', 'cross_chain_refused_bech32')]
+        'noncanonical_p2pkh', 'bare_pubkey', 'unsupported_witver_refused', 'cross_chain_refused_base58',
+        'cross_chain_refused_bech32', 'roundtrip_sha256d', 'cross_chain_refused_base58_sha256d')]
     anchors = [('bitcoin/wallet.py', 'CBitcoinAddress.__new__'), ('bitcoin/wallet.py', 'CBitcoinAddress.from_scriptPubKey'),
                ('bitcoin/wallet.py', 'CBech32BitcoinAddress.from_bytes'),
                ('bitcoin/wallet.py', 'CBech32BitcoinAddress.from_scriptPubKey'),
@@ -87,7 +88,8 @@ class C12(Prop):
             'standard scripts through CBitcoinAddress.from_scriptPubKey and through the P2PKH converter under its four '
             'flag settings; bare-pubkey scripts; every valid address of every chain parsed under every chain; segwit '
             'addresses of witness versions 0..16 and program lengths 2..40; base58check texts of all 256 version bytes; '
-            'mutated, upper/mixed-case, unicode, empty and over-long strings; address objects used after a chain switch')
+            'mutated, upper/mixed-case, unicode, empty and over-long strings; address objects used after a chain switch; '
+            'the fresh-import state (re-imported bitcoin.*, no SelectParams before the conversions) and histories from it')
 
     def setup(self):
         ensure_repo_on_path()
@@ -102,7 +104,7 @@ class C12(Prop):
     def generate(self, rng, tier, shard, nshards):
         big = tier == 'thorough'
         i = 0
-        for c in itertools.chain(self.gen_select(rng, big), self.gen_conv(rng, big), self.gen_scripts(rng, big),
+        for c in itertools.chain(self.gen_fresh(rng, big), self.gen_select(rng, big), self.gen_conv(rng, big), self.gen_scripts(rng, big),
                                  self.gen_cross(rng, big), self.gen_segwit(rng, big), self.gen_b58(rng, big),
                                  self.gen_strings(rng, big), self.gen_stale(rng, big)):
             i += 1
@@ -122,6 +124,30 @@ class C12(Prop):
         ps = [bytes(n), b'\xff' * n, bytes(range(n)), b'\x00' * (n - 1) + b'\x01', b'\x80' + bytes(n - 1)]
         ps += [bytes(rng.randrange(256) for _ in range(n)) for _ in range(k)]
         return ps
+
+    def gen_fresh(self, rng, big):
+        """the state `import bitcoin` leaves (no SelectParams yet), and histories that start from it"""
+        hists = ['@fresh', '@fresh,main', '@fresh,foo,bar', '@fresh,testnet', '@fresh,foo,signet,bar', '@fresh,regtest,mainnet',
+                 '@fresh,mainnet']
+        for h in hists:
+            yield mk('c12.select', h, tag='fresh')
+        for h in hists[:3] + ([hists[3], hists[4]] if big else [hists[4]]):
+            for t in TMPL:
+                for p in self.payloads(rng, PLEN[t], 1)[:3 if big else 2]:
+                    yield mk('c12.conv', h, t, p.hex(), tag='fresh')
+            pk65 = b'\x04' + bytes(rng.randrange(256) for _ in range(64))
+            pk33 = b'\x02' + bytes(rng.randrange(256) for _ in range(32))
+            h20 = bytes(rng.randrange(256) for _ in range(20))
+            for spk in (b'\x41' + pk65 + b'\xac', b'\x21' + pk33 + b'\xac', b'\x76\xa9\x4c\x14' + h20 + b'\x88\xac'):
+                yield mk('c12.p2pkh', h, spk.hex(), '1', '1', tag='fresh')
+                yield mk('c12.fromspk', h, spk.hex(), tag='fresh')
+            for text in ('1111111111111111111114oLvT2', 'BC1QW508D6QEJXTDG4Y5R3ZARVARY0C5XW7KV8F3T4',
+                         'tb1qrp33g0q5c5txsp9arysrx4k6zdkfs4nce4xj0gdcccefvpysxf3q0sl5k7',
+                         'bc1pw508d6qejxtdg4y5r3zarvary0c5xw7kw508d6qejxtdg4y5r3zarvary0c5xw7k7grplx',
+                         '2NGapyPiksYHc7PU4pecnXhcyzNkq1wvz5p', '', 'é'):
+                yield mk('c12.parse', h, tx(text), tag='fresh')
+            yield mk('c12.stale', h, std_script('P2WPKH', h20).hex(), 'regtest', tag='fresh')
+            yield mk('c12.stale', h, std_script('P2PKH', h20).hex(), 'testnet', tag='fresh')
 
     def gen_select(self, rng, big):
         for a in CHAINS + BAD_NAMES:
@@ -275,10 +301,23 @@ class C12(Prop):
                     yield mk('c12.stale', a, std_script(t, p).hex(), b, tag='stale')
 
     # ------------------------------------------------------------------------------------------
+    def fresh_import(self):
+        """bitcoin.* as a new interpreter would have them: nothing selected yet"""
+        import sys
+        for m in list(sys.modules):
+            if m == 'bitcoin' or m.startswith('bitcoin.'):
+                del sys.modules[m]
+        self.setup()
+
     def select_all(self, hist):
         outs = []
-        self.bitcoin.SelectParams('mainnet')
-        for n in ([] if hist == '' else hist.split(',')):
+        names = [] if hist == '' else hist.split(',')
+        if names[:1] == ['@fresh']:
+            self.fresh_import()
+            names = names[1:]
+        else:
+            self.bitcoin.SelectParams('mainnet')
+        for n in names:
             outs.append(guarded(lambda: (self.bitcoin.SelectParams(n), 'ok')[1]))
         return outs
 
@@ -304,16 +343,19 @@ class C12(Prop):
             self.bitcoin.SelectParams('mainnet')
 
     def _impl(self, c):
-        W, SC, bitcoin = self.W, self.SC, self.bitcoin
         op, a = c['op'], c['args']
         if op == 'c12.select':
             outs = self.select_all(a[0])
+            bitcoin = self.bitcoin
             p, cp = bitcoin.params, bitcoin.core.coreparams
-            same = p is cp
-            return '%s,%s,%s,%d,%d|%s' % (p.NAME, cp.NAME if same else cp.NAME + '(distinct-object)', p.BECH32_HRP,
-                                          p.BASE58_PREFIXES['PUBKEY_ADDR'], p.BASE58_PREFIXES['SCRIPT_ADDR'], ','.join(outs))
+            kind = ('same-object' if p is cp else
+                    'core-only' if not any(hasattr(cp, f) for f in ('BASE58_PREFIXES', 'BECH32_HRP', 'MESSAGE_START'))
+                    else 'distinct-full-object')
+            return '%s,%s,%s,%s,%d,%d|%s' % (p.NAME, cp.NAME, kind, p.BECH32_HRP,
+                                             p.BASE58_PREFIXES['PUBKEY_ADDR'], p.BASE58_PREFIXES['SCRIPT_ADDR'], ','.join(outs))
+        self.select_all(a[0])
+        W, SC, bitcoin = self.W, self.SC, self.bitcoin
         if op == 'c12.conv':
-            self.select_all(a[0])
             spk = SC.CScript(std_script(a[1], bytes.fromhex(a[2])))
             try:
                 x = W.CBitcoinAddress.from_scriptPubKey(spk)
@@ -330,17 +372,13 @@ class C12(Prop):
             return '|'.join([self.show_addr(x), text, self.show_addr(y),
                              guarded(lambda: bytes(y.to_scriptPubKey()).hex()), guarded(lambda: str(y))])
         if op == 'c12.fromspk':
-            self.select_all(a[0])
             return self.show_full(lambda: W.CBitcoinAddress.from_scriptPubKey(SC.CScript(bytes.fromhex(a[1]))))
         if op == 'c12.p2pkh':
-            self.select_all(a[0])
             return self.show_full(lambda: W.P2PKHBitcoinAddress.from_scriptPubKey(
                 SC.CScript(bytes.fromhex(a[1])), accept_non_canonical_pushdata=a[2] == '1', accept_bare_checksig=a[3] == '1'))
         if op == 'c12.parse':
-            self.select_all(a[0])
             return self.show_full(lambda: W.CBitcoinAddress(bytes.fromhex(a[1]).decode('utf-8')))
         if op == 'c12.stale':
-            self.select_all(a[0])
             try:
                 x = W.CBitcoinAddress.from_scriptPubKey(SC.CScript(bytes.fromhex(a[1])))
             except Exception as e:  # noqa: BLE001
@@ -371,6 +409,14 @@ class C12(Prop):
         return c.line
 
     def signature(self, c, io, mo):
+        if c['op'] in ('c12.p2pkh', 'c12.fromspk', 'c12.stale') and io.startswith('P2PKH,') and mo.startswith('P2PKH,'):
+            # bare uncompressed pubkey: <65-byte key> CHECKSIG after canonicalisation of the pushes
+            try:
+                s = bytes(self.SC.CScript(tuple(self.SC.CScript(bytes.fromhex(c['args'][1])))))
+            except Exception:  # noqa: BLE001
+                s = b''
+            if len(s) == 67 and s[0] == 0x41 and s[66] == 0xac:
+                return 'D18-bare-uncompressed-pubkey-hashes-64-bytes'
         if c['op'] == 'c12.parse' and io == 'err:py:AssertionError' and mo == 'err:addrerr':
             return 'D9-bech32-v1-assertion'
         return None
